@@ -70,6 +70,7 @@ class ModuleInfo:
         self.funcs = {}        # local qual (f or C.m) -> FuncInfo
         self.classes = {}      # class name -> ClassDef
         self.consts = {}       # module-level simple assignments: name -> ast expr
+        self.star = []         # modules star-imported
 
     @property
     def relpath(self):
@@ -126,6 +127,9 @@ class PyRepo:
             elif isinstance(node, ast.ImportFrom):
                 mod = absmod(node.level, node.module)
                 for al in node.names:
+                    if al.name == "*":
+                        m.star.append(mod)
+                        continue
                     m.imports[al.asname or al.name] = (mod + "." + al.name) if mod else al.name
         for node in m.tree.body:
             if isinstance(node, (ast.FunctionDef, ast.AsyncFunctionDef)):
@@ -196,6 +200,11 @@ class PyRepo:
                     tgt = ".".join([m.imports[rest[0]]] + rest[1:])
                     if tgt != full:
                         return self._follow(tgt, depth + 1)
+                if rest and rest[0] not in m.funcs and rest[0] not in m.classes:
+                    for sm in m.star:
+                        cand = ".".join([sm] + rest)
+                        if cand in self.funcs or self.class_of(".".join([sm] + rest[:1])):
+                            return cand
                 return full
         return full
 
